@@ -46,8 +46,9 @@ struct Case {
     sec: Sec,
     incl_opt: bool,
     tag: String,
-    /// before the walk: clear the pointer flag (bytes are pointer-free) and memoise the question
-    prep: bool,
+    /// before the walk. 1: clear the pointer flag (bytes are pointer-free) and memoise the question;
+    /// 2: delete the question (the walk then runs on a packet without a question section)
+    prep: u8,
 }
 
 fn sub(owner: &Name) -> Name {
@@ -114,7 +115,7 @@ fn cases(max_n: usize) -> Vec<Case> {
                     };
                     let incls: Vec<bool> = if sec == Sec::Additional { vec![false, true] } else { vec![false] };
                     for incl in incls {
-                        v.push(Case { bytes: encode(&m, strat), sec, incl_opt: incl, prep: false, tag: format!("sec={}{} opt={} n={} ptr={} long={}", sec_name(sec), if incl { "+opt" } else { "" }, optname, n, (strat != Strategy::Plain) as u8, long as u8) });
+                        v.push(Case { bytes: encode(&m, strat), sec, incl_opt: incl, prep: 0, tag: format!("sec={}{} opt={} n={} ptr={} long={}", sec_name(sec), if incl { "+opt" } else { "" }, optname, n, (strat != Strategy::Plain) as u8, long as u8) });
                     }
                 }
             }
@@ -125,10 +126,10 @@ fn cases(max_n: usize) -> Vec<Case> {
         m.ns.push(name_rec(&ba, T_NS, 1, &sub(&ba)));
         m.ar.push(a_rec(&ba, 3, [3, 3, 3, 3]));
         m.ar.push(opt_variants()[1].clone());
-        v.push(Case { bytes: encode(&m, strat), sec: Sec::Question, incl_opt: false, prep: false, tag: format!("sec=question opt=last n=1 ptr={}", (strat == Strategy::Max) as u8) });
+        v.push(Case { bytes: encode(&m, strat), sec: Sec::Question, incl_opt: false, prep: 0, tag: format!("sec=question opt=last n=1 ptr={}", (strat == Strategy::Max) as u8) });
         if strat == Strategy::Plain {
-            v.push(Case { bytes: encode(&m, strat), sec: Sec::Question, incl_opt: false, prep: true, tag: "sec=question opt=last n=1 ptr=0 memo=1".to_string() });
-            v.push(Case { bytes: encode(&m, strat), sec: Sec::Answer, incl_opt: false, prep: true, tag: "sec=answer opt=last n=1 ptr=0 memo=1".to_string() });
+            v.push(Case { bytes: encode(&m, strat), sec: Sec::Question, incl_opt: false, prep: 1, tag: "sec=question opt=last n=1 ptr=0 memo=1".to_string() });
+            v.push(Case { bytes: encode(&m, strat), sec: Sec::Answer, incl_opt: false, prep: 1, tag: "sec=answer opt=last n=1 ptr=0 memo=1".to_string() });
         }
     }
     }
@@ -142,7 +143,7 @@ fn cases(max_n: usize) -> Vec<Case> {
         m.ar.push(opt_variants()[0].clone());
         for strat in [Strategy::Max, Strategy::Plain] {
             for (sec, n) in [(Sec::Question, 1usize), (Sec::Answer, 2), (Sec::Authority, 1)] {
-                v.push(Case { bytes: encode(&m, strat), sec, incl_opt: false, prep: false, tag: format!("sec={} opt=last n={} ptr={} root=1", sec_name(sec), n, (strat != Strategy::Plain) as u8) });
+                v.push(Case { bytes: encode(&m, strat), sec, incl_opt: false, prep: 0, tag: format!("sec={} opt=last n={} ptr={} root=1", sec_name(sec), n, (strat != Strategy::Plain) as u8) });
             }
         }
     }
@@ -155,7 +156,28 @@ fn cases(max_n: usize) -> Vec<Case> {
         p.extend_from_slice(&[0xc0, 34, 0, 1, 0, 1, 0, 0, 0, 103, 0, 4, 2, 2, 2, 2]);
         assert!(wf(&p).is_ok(), "{:?}", wf(&p));
         for (sec, n) in [(Sec::Question, 1usize), (Sec::Answer, 2), (Sec::Authority, 1), (Sec::Additional, 1)] {
-            v.push(Case { bytes: p.clone(), sec, incl_opt: false, prep: false, tag: format!("sec={} opt=none n={} ptr=1 header=1", sec_name(sec), n) });
+            v.push(Case { bytes: p.clone(), sec, incl_opt: false, prep: 0, tag: format!("sec={} opt=none n={} ptr=1 header=1", sec_name(sec), n) });
+        }
+    }
+    // the same walks on a packet whose question was deleted beforehand
+    {
+        let base = nm("b.a");
+        for strat in [Strategy::Plain, Strategy::Max] {
+            for optpos in [None, Some(0usize), Some(2)] {
+                let mut m = base_msg(&base, T_A, true);
+                for i in 0..2 {
+                    m.an.push(rec_i(i, &base));
+                    m.ns.push(rec_i(10 + i, &base));
+                    m.ar.push(rec_i(20 + i, &base));
+                }
+                if let Some(p) = optpos {
+                    m.ar.insert(p, opt_variants()[1].clone());
+                }
+                for (sec, incl) in [(Sec::Answer, false), (Sec::Authority, false), (Sec::Additional, false), (Sec::Additional, true)] {
+                    let n = m.sec(sec).len();
+                    v.push(Case { bytes: encode(&m, strat), sec, incl_opt: incl, prep: 2, tag: format!("sec={}{} opt={} n={} ptr={} noq=1", sec_name(sec), if incl { "+opt" } else { "" }, match optpos { None => "none", Some(0) => "first", _ => "last" }, n, (strat != Strategy::Plain) as u8) });
+                }
+            }
         }
     }
     // packets longer than 256 bytes with names at 256-aligned offsets (hand-assembled, see gen::aligned_pointer_packets)
@@ -163,7 +185,7 @@ fn cases(max_n: usize) -> Vec<Case> {
     for (i, tag) in [(4usize, "n256"), (5, "n256opt"), (13, "n512opt")] {
         for (sec, incl) in [(Sec::Answer, false), (Sec::Authority, false), (Sec::Additional, false), (Sec::Additional, true)] {
             let n = decode(&al[i]).unwrap().msg.sec(sec).len();
-            v.push(Case { bytes: al[i].clone(), sec, incl_opt: incl, prep: false, tag: format!("sec={}{} opt={} n={} ptr=1 long=1 aligned={}", sec_name(sec), if incl { "+opt" } else { "" }, if i == 4 { "none" } else { "first" }, n, tag) });
+            v.push(Case { bytes: al[i].clone(), sec, incl_opt: incl, prep: 0, tag: format!("sec={}{} opt={} n={} ptr=1 long=1 aligned={}", sec_name(sec), if incl { "+opt" } else { "" }, if i == 4 { "none" } else { "first" }, n, tag) });
         }
     }
     v
@@ -321,11 +343,24 @@ thread_local! {
 
 fn run_case(c: &Case, acts: &[Act]) -> Result<WalkResult, (String, String)> {
     let mut pp = crate::subj::parse(&c.bytes).map_err(|e| ("setup".to_string(), e))?;
-    if c.prep {
+    if c.prep == 1 {
         pp.recompute().map_err(|e| ("setup".to_string(), e.to_string()))?;
         let _ = pp.question_raw0();
     }
-    let d0 = decode(&c.bytes).unwrap();
+    if c.prep == 2 {
+        let r: Result<Result<(), String>, String> = caught(|| match pp.into_iter_question() {
+            Some(mut q) => dnssector::TypedIterable::delete(&mut q).map_err(|e| e.to_string()),
+            None => Err("no question".to_string()),
+        });
+        match r {
+            Ok(Ok(())) => {}
+            Ok(Err(e)) => return Err(("setup:delete_question".to_string(), e)),
+            Err(p) => return Err((format!("setup:panic:{}", panic_site(&p)), p)),
+        }
+    }
+    let base_bytes = pp.packet().to_vec();
+    let c = &Case { bytes: base_bytes, sec: c.sec, incl_opt: c.incl_opt, tag: c.tag.clone(), prep: c.prep };
+    let d0 = decode(&c.bytes).map_err(|e| ("setup:undecodable".to_string(), format!("{:?}", e)))?;
     let w = {
         let r = caught(|| match c.sec {
             Sec::Question => run_walk(pp.into_iter_question(), c.sec, false, acts, &c.bytes),
@@ -457,7 +492,7 @@ fn replay(case: &Value) -> Result<String, String> {
         bytes: unhex(case["input"].as_str().unwrap_or("")),
         sec: crate::bfs_model::sec_from(case["section"].as_str().unwrap_or("")),
         incl_opt: case["incl_opt"].as_bool().unwrap_or(false),
-        prep: case["prep"].as_bool().unwrap_or(false),
+        prep: case["prep"].as_u64().unwrap_or(case["prep"].as_bool().unwrap_or(false) as u64) as u8,
         tag: String::new(),
     };
     let acts: Vec<Act> = case["acts"].as_str().unwrap_or("").chars().map(|ch| if ch == 'D' { Act::D } else { Act::N }).collect();
